@@ -237,6 +237,10 @@ def run_group(group, tier, seed=0, extra_args=()):
                               'gen_line': pl, 'snippet': snippet,
                               'clause': '\n'.join(lines[sec[0]['line_start'] - 1:sec[0]['line_end']]) if sec else '',
                               'rendered': d.get('rendered', '')})
+    # a resource-limit report that accompanies classified failures of the same run comes from the
+    # search for *further* errors after the first one (--multiple-errors): the classified failures stand
+    if res['failed']:
+        hard_errors = [h for h in hard_errors if not h.startswith('resource')]
     if hard_errors:
         res['status'] = 'undecided'
         res['undecided'] = '; '.join(hard_errors[:5])
